@@ -3,6 +3,7 @@ from ..runner import Case
 from .. import gen, core
 
 ID = "C05"
+STATEFUL = True     # some blocks keep a live object across lines
 LEAN_TARGETS = ["Cider.Props.C05", "Cider.Props.C02Tie", "Cider.Props.C05Tie"]
 P = "Cider.C05."
 THEOREMS = ["Cider.C02.gen_charge_eq_published", P + "gen_omegaX_eq_published"] + [P + t for t in (
@@ -42,6 +43,9 @@ def block(s, rng):
 
 
 def cases(rng, tier):
+    # the property's own queries AFTER other public calls on the same object (same answers as on a fresh one)
+    for c in gen.after_calls_cases(rng, 16 if tier == "quick" else 120, ['kappa', 'delta', 'dmax', 'scd', 'omega']):
+        yield c
     n = 6 if tier == "quick" else 8
     for pat in gen.patterns_upto(n):
         s = gen.spell(pat, rng)
@@ -64,6 +68,9 @@ def cases(rng, tier):
 
 
 def judge(case, reals, gens, specs):
+    if case.tags.get("kind") == "after-other-calls":
+        from ..runner import default_judge
+        return default_judge(None, case, reals, gens, specs)
     out = []
     idx = case.tags.get("idx")
     for i, (r, g, s) in enumerate(zip(reals, gens, specs)):
